@@ -22,6 +22,26 @@ LEVEL_NOTE = (
 ASSUMPTIONS = c17.ASSUMPTIONS + ["two operations on distinct streams share no Writer / encoder / decoder / Parser instance"]
 
 
+PROCESS_WIDE = {
+    ("sys", "setrecursionlimit"), ("sys", "setswitchinterval"), ("sys", "settrace"), ("sys", "setprofile"), ("sys", "set_int_max_str_digits"), ("sys", "setdlopenflags"), ("sys", "set_asyncgen_hooks"), ("sys", "set_coroutine_origin_tracking_depth"),
+    ("threading", "settrace"), ("threading", "setprofile"), ("threading", "stack_size"),
+    ("decimal", "setcontext"), ("locale", "setlocale"), ("random", "seed"), ("random", "setstate"),
+    ("warnings", "simplefilter"), ("warnings", "filterwarnings"), ("warnings", "resetwarnings"),
+    ("socket", "setdefaulttimeout"), ("signal", "signal"), ("signal", "alarm"), ("signal", "setitimer"),
+    ("gc", "disable"), ("gc", "enable"), ("gc", "set_threshold"), ("gc", "freeze"), ("time", "tzset"), ("resource", "setrlimit"),
+    ("faulthandler", "enable"), ("tracemalloc", "start"), ("atexit", "register"), ("os.environ", "update"), ("os.environ", "pop"), ("os.environ", "setdefault"), ("os.environ", "clear"),
+    ("numpy", "seterr"), ("numpy", "set_printoptions"), ("np", "seterr"),
+}
+
+
+def _enclosing_name(m, node):
+    best = ""
+    for n in ast.walk(m.tree):
+        if isinstance(n, (ast.FunctionDef, ast.AsyncFunctionDef)) and n.lineno <= getattr(node, "lineno", 0) <= (n.end_lineno or n.lineno):
+            best = n.name
+    return best or "<module>"
+
+
 def run(ctx):
     a = analysis(ctx.program)
     p = a.p
@@ -69,5 +89,76 @@ def run(ctx):
     ctx.check("C18.R3", "no global / nonlocal statement and no caching decorator in the package", not bad, bad[0].rsplit(":", 1)[0] if bad else "", bad[0] if bad else "", "process-wide state shared by all threads")
     cls_mut = [(ci, attr) for ci in p.all_classes() for attr, v in ci.class_attrs.items() if _mutable_display(v)]
     ctx.check("C18.R3", "no mutable class-level attribute", not cls_mut, cls_mut[0][0].mod.relpath + ":" + cls_mut[0][0].name if cls_mut else "", f"{cls_mut[0][0].name}.{cls_mut[0][1]}" if cls_mut else "", "a mutable class attribute is shared by all instances in all threads")
+    # ---- R4 interpreter- and process-wide settings ----------------------------------------------------------------------
+    ctx.rule("C18.R4", "no call that changes an interpreter-wide or process-wide setting (recursion limit, trace hooks, ambient decimal context, locale, environment, working directory, global RNG seed, warning filters, default socket timeout, gc)", floor=1)
+    n_calls = 0
+    bad = []
+    for m in p.modules.values():
+        if m.short in ("__main__",):
+            continue
+        imports = getattr(m, "imports", {})
+        nested = {}
+        for n in ast.walk(m.tree):
+            if isinstance(n, (ast.Import, ast.ImportFrom)):
+                # imports inside functions
+                for al in n.names:
+                    local = al.asname or al.name.split(".")[0]
+                    if isinstance(n, ast.Import):
+                        nested.setdefault(local, ("module", al.name if al.asname else al.name.split(".")[0], None))
+                    elif n.level == 0 and n.module:
+                        nested.setdefault(al.asname or al.name, ("attr", n.module, al.name))
+
+        def target(fn):
+            if isinstance(fn, ast.Attribute) and isinstance(fn.value, ast.Name):
+                r = imports.get(fn.value.id)
+                if r is not None and r.kind == "module":
+                    return (r.module, fn.attr)
+                if r is not None and r.kind == "attr" and r.external:
+                    return (f"{r.module}.{r.attr}", fn.attr)
+                if r is None and fn.value.id in nested and nested[fn.value.id][0] == "module":
+                    return (nested[fn.value.id][1], fn.attr)
+            if isinstance(fn, ast.Attribute) and isinstance(fn.value, ast.Attribute) and isinstance(fn.value.value, ast.Name):
+                r = imports.get(fn.value.value.id)
+                if r is not None and r.kind == "module":
+                    return (f"{r.module}.{fn.value.attr}", fn.attr)
+            if isinstance(fn, ast.Name):
+                r = imports.get(fn.id)
+                if r is not None and r.kind == "attr" and r.external:
+                    return (r.module, r.attr)
+                if r is None and fn.id in nested and nested[fn.id][0] == "attr":
+                    return (nested[fn.id][1], nested[fn.id][2])
+            return None
+
+        for n in ast.walk(m.tree):
+            if isinstance(n, ast.Call):
+                t = target(n.func)
+                if t is None:
+                    continue
+                n_calls += 1
+                if t in PROCESS_WIDE or (t[0] in ("os", "posix") and t[1] in ("chdir", "fchdir", "umask", "putenv", "unsetenv", "setuid", "setgid", "nice")):
+                    bad.append((m, n, f"{t[0]}.{t[1]}"))
+            # stores into os.environ / sys.<attr> / the ambient decimal context
+            tgts = []
+            if isinstance(n, ast.Assign):
+                tgts = n.targets
+            elif isinstance(n, (ast.AugAssign, ast.AnnAssign)):
+                tgts = [n.target]
+            elif isinstance(n, ast.Delete):
+                tgts = n.targets
+            for tg in tgts:
+                base = tg.value if isinstance(tg, (ast.Subscript, ast.Attribute)) else None
+                if base is None:
+                    continue
+                bt = norm(base)
+                if isinstance(base, ast.Attribute) and isinstance(base.value, ast.Name) and getattr(imports.get(base.value.id), "kind", None) == "module" and (imports[base.value.id].module, base.attr) == ("os", "environ"):
+                    bad.append((m, n, "os.environ[...] = ..."))
+                elif isinstance(tg, ast.Attribute) and isinstance(base, ast.Name) and getattr(imports.get(base.id), "kind", None) == "module" and imports[base.id].module == "sys":
+                    bad.append((m, n, f"sys.{tg.attr} = ..."))
+                elif isinstance(tg, ast.Attribute) and isinstance(base, ast.Call) and target(base.func) == ("decimal", "getcontext"):
+                    bad.append((m, n, f"decimal.getcontext().{tg.attr} = ..."))
+    for (m, n, what) in bad:
+        ctx.violation("C18.R4", f"{m.relpath}: {what}", f"{m.relpath}:{_enclosing_name(m, n)}:{n.lineno}", f"{m.relpath}: {norm(n)[:90]}", "the setting belongs to the whole interpreter (or process): another thread inside the library at the same time sees it change under its feet, and a restore by the first caller to finish takes it away from the others; results then depend on the schedule")
+    if not bad:
+        ctx.holds("C18.R4", f"{n_calls} calls of imported functions examined: none changes a process-wide setting", "")
     ctx.extra["mutation_sites"] = len(eff.events)
     ctx.extra["entry_groups"] = {g: len(e.funcs) for g, e in eff.runs.items()}
